@@ -552,6 +552,7 @@ impl DrawState {
         // accurately reflect the number of lines that have been displayed on the terminal, if the
         // full height exceeds the terminal height.
         let mut real_height = VisualLines::default();
+        let mut ends_with_text = false;
 
         for (idx, line) in self.lines.iter().enumerate() {
             let line_height = line.wrapped_height(term_width);
@@ -573,21 +574,22 @@ impl DrawState {
             }
 
             term.write_str(line.as_ref())?;
+            ends_with_text = !matches!(line, LineType::Bar(_));
 
-            if idx + 1 == self.lines.len() {
-                if matches!(line, LineType::Bar(_)) {
-                    // For the last line of the output, keep the cursor on the right terminal
-                    // side so that next user writes/prints will happen on the next line
-                    let last_line_filler =
-                        line_height.as_usize() * term_width - line.console_width();
-                    term.write_str(&" ".repeat(last_line_filler))?;
-                } else {
-                    // A draw that ends with a text line leaves nothing to redraw, so finish the
-                    // line: the next draw then starts on a fresh row even if its first line is
-                    // empty (an empty line does not wrap a cursor parked at the right edge).
-                    term.write_line("")?;
-                }
+            if idx + 1 == self.lines.len() && !ends_with_text {
+                // For the last line of the output, keep the cursor on the right terminal
+                // side so that next user writes/prints will happen on the next line
+                let last_line_filler = line_height.as_usize() * term_width - line.console_width();
+                term.write_str(&" ".repeat(last_line_filler))?;
             }
+        }
+
+        if ends_with_text {
+            // A draw whose painted part ends with a text line (there are no bars, or none of
+            // them fits into the terminal height) leaves nothing to redraw, so finish the line:
+            // the next draw then starts on a fresh row even if its first line is empty (an
+            // empty line does not wrap a cursor parked at the right edge).
+            term.write_line("")?;
         }
 
         term.flush()?;
